@@ -243,3 +243,43 @@ Fixpoint model_trace (c : cfg) (h : list cache) (ops : list hop) : list obs :=
 
 Definition model_run (c : cfg) (init : list (K * V)) (ops : list hop) : list obs :=
   model_trace c [fst (init_cache c init)] ops.
+
+(* the heap after a history (an operation on a cache that does not exist changes nothing) *)
+Definition run_heap_from (c : cfg) (h : list cache) (ops : list hop) : list cache :=
+  fold_left (fun h o => fst (fst (hstep c h o))) ops h.
+
+Definition run_heap (c : cfg) (init : list (K * V)) (ops : list hop) : list cache :=
+  run_heap_from c [fst (init_cache c init)] ops.
+
+(* ---- comparing the model with observations of the implementation ------------- *)
+Definition valid_hop (n : nat) (o : hop) : bool :=
+  match o with
+  | On i _ | Copy i => (i <? n)%nat
+  | EqCache i j => (i <? n)%nat && (j <? n)%nat
+  end.
+
+(* a model observation against an implementation observation: everything equal;
+   the full view only where the harness took one *)
+Definition obs_agree (m i : obs) : bool :=
+  res_eqb outv_eqb (o_out m) (o_out i)
+  && Nat.eqb (o_len m) (o_len i)
+  && N.eqb (o_hit m) (o_hit i) && N.eqb (o_miss m) (o_miss i) && N.eqb (o_soft m) (o_soft i)
+  && list_eqb Nat.eqb (o_calls m) (o_calls i)
+  && match o_items i with
+     | None => true
+     | Some l => option_eqb (list_eqb kv_eqb) (o_items m) (Some l)
+     end.
+
+Fixpoint agree_walk (c : cfg) (h : list cache) (steps : list (hop * obs)) : bool :=
+  match steps with
+  | [] => true
+  | (o, ob) :: rest =>
+      let '(h', mo) := hobserve c h o in
+      valid_hop (length h) o && obs_agree mo ob && agree_walk c h' rest
+  end.
+
+Definition agree_check (c : cfg) (init : list (K * V)) (steps : list (hop * obs)) : bool :=
+  match init_cache c init with
+  | (m, Ok _) => agree_walk c [m] steps
+  | (_, Raise _) => false
+  end.
